@@ -48,7 +48,7 @@ func leafFor(kind string, ca, other *tlsm.CA, host string, client bool) *tls.Cer
 
 // attackServer: a peer with the given certificate / max version (or plaintext) talks to a Server prepared by DefaultServerTLSConfig.
 // Returns what ran on the server and whether a KMIP response came back.
-func attackServer(ca, other *tlsm.CA, serverCert tls.Certificate, certKind string, maxVer uint16, plaintext bool, timeout time.Duration) (events string, gotResponse bool, err error) {
+func attackServer(ca, other *tlsm.CA, serverCert tls.Certificate, certKind string, maxVer uint16, plaintext bool, timeout time.Duration, probe string) (events string, gotResponse bool, err error) {
 	cfg := &tls.Config{Certificates: []tls.Certificate{serverCert}, ClientCAs: ca.Pool,
 		MinVersion: tls.VersionTLS10, ClientAuth: tls.NoClientCert} // weak prior contents: the defaults must override them
 	kmip.DefaultServerTLSConfig(cfg)
@@ -76,6 +76,26 @@ func attackServer(ca, other *tlsm.CA, serverCert tls.Certificate, certKind strin
 		BatchItems: []kmip.RequestBatchItem{{Operation: kmip.OPERATION_ACTIVATE, RequestPayload: kmip.ActivateRequest{UniqueIdentifier: "a"}}}}
 	_ = cc.SetDeadline(time.Now().Add(3 * time.Second))
 	var conn net.Conn = cc
+	if probe != "" {
+		// a scanner / health check: connects, sends nothing (or the first bytes of a TLS record) and goes away
+		if probe == "partial-hello" {
+			_, _ = cc.Write([]byte{0x16, 0x03, 0x01, 0x02, 0x00, 0x01})
+		}
+		cc.Close()
+		select {
+		case <-rc.Closed():
+		case <-time.After(5 * time.Second):
+			err = fmt.Errorf("server did not close the connection")
+		}
+		ctx, cancel := context.WithTimeout(context.Background(), 5*time.Second)
+		defer cancel()
+		if e := s.Shutdown(ctx); e != nil {
+			err = fmt.Errorf("shutdown: %v", e)
+		}
+		<-ret
+		events = fmt.Sprintf("sessionAuth=%d requestAuth=%d handler=%d", atomic.LoadInt32(&sa), atomic.LoadInt32(&ra), atomic.LoadInt32(&calls))
+		return
+	}
 	if !plaintext {
 		ccfg := &tls.Config{RootCAs: ca.Pool, ServerName: "kmip.test", MinVersion: tls.VersionTLS10, MaxVersion: maxVer}
 		if leaf := leafFor(certKind, ca, other, "client.test", true); leaf != nil {
@@ -161,7 +181,7 @@ func impersonate(ca, other *tlsm.CA, certKind string, maxVer uint16) (connected 
 }
 
 func runC16(r *Result, d *drv.Driver, tier string, seed int64, replay string) {
-	r.Rule = "exhaustive peer matrix against the real crypto/tls: a peer with certificate in {none, valid, self-signed, other CA, expired, wrong host} x max TLS version in {1.0, 1.1, 1.2, 1.3}, plus a plaintext peer, " +
+	r.Rule = "exhaustive peer matrix against the real crypto/tls: a peer with certificate in {none, valid, self-signed, other CA, expired, wrong host} x max TLS version in {1.0, 1.1, 1.2, 1.3}, plus a plaintext peer, a peer that connects and leaves without sending anything, and one that leaves after the first bytes of a TLS record, " +
 		"attacks a Server (with read/write timeouts 2s, and with none) whose config (weak prior contents) went through DefaultServerTLSConfig - observed: session-auth / request-auth / handler invocations and whether a KMIP response came back; and a TLS server with each certificate x version impersonates towards a Client prepared by DefaultClientTLSConfig - observed: Connect result and application bytes received. Expected outcome = the model's handshake predicate. distinct = one per matrix cell"
 	r.Exhaustive = true
 	ca, other := tlsm.NewCA("kmip-test-ca"), tlsm.NewCA("foreign-ca")
@@ -171,19 +191,22 @@ func runC16(r *Result, d *drv.Driver, tier string, seed int64, replay string) {
 		ver       int
 		plaintext bool
 		timeout   time.Duration
+		probe     string
 	}
 	var cells []cell
 	for _, to := range []time.Duration{2 * time.Second, 0} {
 		for _, k := range certKinds {
 			for vi := range tlsVersions {
-				cells = append(cells, cell{k, vi, false, to})
+				cells = append(cells, cell{k, vi, false, to, ""})
 			}
 		}
-		cells = append(cells, cell{"none", 3, true, to})
+		cells = append(cells, cell{"none", 3, true, to, ""})
+		cells = append(cells, cell{"none", 3, true, to, "silent-close"})
+		cells = append(cells, cell{"none", 3, true, to, "partial-hello"})
 	}
 	for _, c := range cells {
-		key := fmt.Sprintf("attack-server cert=%s max=%s plaintext=%v server-timeouts=%v", c.kind, tlsVersions[c.ver].name, c.plaintext, c.timeout)
-		ev, resp, err := attackServer(ca, other, serverCert, c.kind, tlsVersions[c.ver].v, c.plaintext, c.timeout)
+		key := fmt.Sprintf("attack-server cert=%s max=%s plaintext=%v server-timeouts=%v probe=%s", c.kind, tlsVersions[c.ver].name, c.plaintext, c.timeout, c.probe)
+		ev, resp, err := attackServer(ca, other, serverCert, c.kind, tlsVersions[c.ver].v, c.plaintext, c.timeout, c.probe)
 		r.eval(key, true)
 		// model predicate (Tls.serverHandshakeOk after defaultServer): TLS >= 1.2 and a chain to the pool, within validity
 		want := !c.plaintext && tlsVersions[c.ver].v >= tls.VersionTLS12 && (c.kind == "valid" || c.kind == "wrongHost")
